@@ -101,7 +101,7 @@ fn case_strategy(tier: Tier) -> BoxedStrategy<HcCase> {
 }
 
 #[derive(Clone, Debug, PartialEq, Serialize)]
-enum CheckEv {
+pub enum CheckEv {
     Start { res: usize, k: usize, t: u64 },
     /// result delivered (0..=3)
     Served { res: usize, k: usize, result: u8, t: u64 },
